@@ -15,9 +15,22 @@ Ops (every line carries the block time `now=` and is executable from its text al
 * `remove_members now= sender= id= addrs=<a,…|->`
 * `increase_limit now= sender= funds= limit=`
 * `update_admins now= sender= admins=` / `freeze now= sender=`
+* `migrate now= sender=` (to the same code) / `unk now= sender= name=<variant> arg=<n>` (a message outside `ExecuteMsg`)
 * `q now= probes=<a,…|-> mk=<…> folded=<n|-,…>`   (`folded` = witness: proof folded over the leaf hash, computed outside the model)
 
-Answers: `err`, or `ok <state summary>` for messages, `ok <observation vector>` for `q`.
+Witnesses appended by the harness (what the implementation decided in areas C13 does not own):
+* `inst … envok=0` — the real instantiate failed AND the same message with a canonical valid schedule failed too, i.e. it
+  was rejected for a non-schedule reason (fee, member limit, whale cap, member lists, admin addresses): the model follows.
+* `add_stage … menv=0` — the real add_stage failed but the same stage with an empty member list is accepted, i.e. it was
+  rejected because of the member list (limit, invalid address, whale cap): the model follows.
+* `add_members|remove_members|increase_limit|update_admins|freeze … res=<0|1>` — the implementation's verdict; on `res=0`
+  the model skips the message (its own opinion goes behind ` ## `), on `res=1` it must accept and reach the same state.
+
+Answers are `primary ## drift`. PRIMARY = what C13 constrains + the mechanism state of its theorems: accept/reject of the stage
+messages, stage windows / denom / price / per-address limit, `num_members`, the stored member map, Merkle roots, and every
+"active stage" / membership answer. DRIFT (reported, never decides): stage names, mint-count limits, `member_count`, member
+limit, whale cap, admin list, `CanExecute`, `HasStarted`/`HasEnded`, the `Config` fields while NO stage is active, the
+per-address-limit half of `StageMemberInfo`, answers for stage ids beyond the list, and the verdicts named above.
 -/
 open LP LP.Proto LP.Tiered
 
@@ -55,24 +68,29 @@ def parseRoot (s : String) : Option Nat :=
 def parseRoots (s : String) : Option (List Nat) :=
   if s == "-" || s == "" then some [] else (s.splitOn ",").mapM parseRoot
 
-def renderStage (s : Stage) : String :=
-  s!"{s.name}:{s.start}:{s.stop}:{s.denom}:{s.price}:{s.pal}:{renderOpt s.mcl}"
+/-- primary projection of a stage: window, mint price, per-address limit -/
+def renderP (s : Stage) : String := s!"{s.start}:{s.stop}:{s.denom}:{s.price}:{s.pal}"
+
+/-- drift part of a stage: name and mint-count limit -/
+def renderX (s : Stage) : String := s!"{s.name}:{renderOpt s.mcl}"
 
 def b01 (b : Bool) : String := if b then "1" else "0"
 
 def joinOr (sep : String) (l : List String) : String := if l.isEmpty then "-" else String.intercalate sep l
 
-def renderStageQ (v : Variant) (s : State) (id : Nat) : String :=
+/-- `Stage{stage_id}`: (primary, drift) -/
+def renderStageQ (v : Variant) (s : State) (id : Nat) : String × String :=
   match stageQ v s id with
-  | .ok (st, c) => s!"{renderStage st}@{c}"
-  | .error _ => "e"
+  | .ok (st, c) => if v == .merkle then (s!"{renderP st}@{c}", renderX st) else (renderP st, s!"{renderX st}@{c}")
+  | .error _ => ("e", "e")
 
-/-- summary printed after every successful message -/
-def summary (v : Variant) (s : State) : String :=
-  let st := String.intercalate ";" ((List.range 4).map (renderStageQ v s))
+/-- (primary, drift) summary printed after every successful message -/
+def summary (v : Variant) (s : State) : String × String :=
+  let qs := (List.range 4).map (renderStageQ v s)
   let n := if v == .merkle then 0 else s.num
   let lim := if v == .merkle then 0 else s.limit
-  s!"ok st={st} n={n} lim={lim} adm={renderNats s.admins}:{b01 s.mutable}"
+  (s!"st={String.intercalate ";" (qs.map (·.1))} n={n}",
+   s!"sx={String.intercalate ";" (qs.map (·.2))} lim={lim} whale={renderOpt s.whale} adm={renderNats s.admins}:{b01 s.mutable}")
 
 def parseOp (v : Variant) (ws : List String) : Option (Option Op) :=
   -- outer none = malformed line; inner none = a line the contract rejects before the model sees it (bad root)
@@ -127,12 +145,18 @@ def parseOp (v : Variant) (ws : List String) : Option (Option Op) :=
   | some "freeze" => do
     let now ← natKv ws "now"; let sender ← natKv ws "sender"
     pure (some (.freeze now sender))
+  | some "migrate" => do
+    let now ← natKv ws "now"; let sender ← natKv ws "sender"
+    pure (some (.migrate now sender))
+  | some "unk" => do
+    let now ← natKv ws "now"; let sender ← natKv ws "sender"
+    pure (some (.unknown now sender))
   | _ => none
 
 def exB (r : Except Err Bool) : String := match r with | .ok b => b01 b | .error _ => "e"
 
-def renderSmi (r : Except Err (Bool × Nat)) : String :=
-  match r with | .ok (b, p) => s!"{b01 b}:{p}" | .error _ => "e"
+def smiB (r : Except Err (Bool × Nat)) : String := match r with | .ok (b, _) => b01 b | .error _ => "e"
+def smiP (r : Except Err (Bool × Nat)) : String := match r with | .ok (_, p) => toString p | .error _ => "e"
 
 def query (v : Variant) (s : State) (ws : List String) : Option String := do
   let now ← natKv ws "now"
@@ -142,28 +166,59 @@ def query (v : Variant) (s : State) (ws : List String) : Option String := do
     | some "-" => some []
     | some f => (f.splitOn ",").mapM optNat?
   let lb := v != .merkle
+  let nst := s.stages.length
   let c := configQ s now
-  let cfg := s!"{if lb then c.num else 0}:{c.pal}:{if lb then c.limit else 0}:{c.start}:{c.stop}:{c.denom}:{c.price}:{b01 c.active}:{renderOpt c.whale}"
-  let as := match activeStage s.stages now with | some st => renderStage st | none => "-"
+  let cfg := if c.active then s!"1:{c.start}:{c.stop}:{c.denom}:{c.price}:{c.pal}" else "0"
+  let cfgx := s!"{if lb then c.num else 0}:{c.pal}:{if lb then c.limit else 0}:{c.start}:{c.stop}:{c.denom}:{c.price}:{b01 c.active}:{renderOpt c.whale}"
+  let as := match activeStage s.stages now with | some st => (renderP st, renderX st) | none => ("-", "-")
   let sl := match stagesQ v s with
-    | .ok l => joinOr ";" (l.map fun (p : Stage × Nat) => s!"{renderStage p.1}@{p.2}")
-    | .error _ => "e"
-  let st := String.intercalate ";" ((List.range 4).map (renderStageQ v s))
+    | .ok l =>
+      (joinOr ";" (l.map fun (p : Stage × Nat) => if lb then renderP p.1 else s!"{renderP p.1}@{p.2}"),
+       joinOr ";" (l.map fun (p : Stage × Nat) => if lb then s!"{renderX p.1}@{p.2}" else renderX p.1))
+    | .error _ => ("e", "e")
+  let qs := (List.range 4).map (renderStageQ v s)
+  let st := String.intercalate ";" (qs.map (·.1))
+  let sx := String.intercalate ";" (qs.map (·.2))
   let hm := if lb then joinOr "," (probes.map fun a => exB (hasMember s now a)) else "x"
   let mb := if v == .flex then joinOr "," (probes.map fun a => match memberQ s now a with | .ok n => toString n | .error _ => "e") else "x"
-  let smi := if lb then
-      joinOr "," (probes.map fun a => String.intercalate "+" ((List.range 4).map fun id => renderSmi (stageMemberInfo v s id a)))
-    else "x"
-  let asmi := if lb then
-      joinOr "," (probes.map fun a =>
-        if !validAddr a then "e"
-        else joinOr "+" ((List.range s.stages.length).map fun id => renderSmi (stageMemberInfo v s id a)))
-    else "x"
+  -- StageMemberInfo: `is_member` of the existing stages is primary; the limit half and ids beyond the list are drift
+  let smiOf (f : Except Err (Bool × Nat) → String) (ids : List Nat) : String :=
+    joinOr "," (probes.map fun a => joinOr "+" (ids.map fun id => f (stageMemberInfo v s id a)))
+  let smi := if lb then smiOf smiB (List.range nst) else "x"
+  let smip := if lb then smiOf smiP (List.range nst) else "x"
+  let smio := if lb then smiOf (fun r => s!"{smiB r}:{smiP r}") ((List.range 4).drop nst) else "x"
+  let asmiOf (f : Bool × Nat → String) : String :=
+    joinOr "," (probes.map fun a => match allStageMemberInfo v s a with
+      | .ok l => joinOr "+" (l.map f)
+      | .error _ => "e")
+  let asmi := if lb then asmiOf (fun r => b01 r.1) else "x"
+  let asmip := if lb then asmiOf (fun r => toString r.2) else "x"
   let ms := if lb then String.intercalate "/" ((List.range 4).map fun k => renderPairs (membersOf s k)) else "x"
+  let n := if lb then c.num else 0
   let ce := joinOr "," (probes.map fun a => if validAddr a then b01 (isAdmin s a) else "e")
   let mk := if lb then "x" else joinOr "," (folded.map fun f => exB (hasMemberMerkle s now f))
   let roots := if lb then "x" else renderNats s.roots
-  pure s!"ok act={activeStageId s now} is={b01 (isActive s now)} hs={b01 (hasStarted s now)} he={b01 (hasEnded s now)} cfg={cfg} as={as} sl={sl} st={st} hm={hm} mb={mb} smi={smi} asmi={asmi} ms={ms} adm={renderNats s.admins}:{b01 s.mutable} ce={ce} mk={mk} roots={roots}"
+  pure (s!"ok act={activeStageId s now} is={b01 (isActive s now)} cfg={cfg} as={as.1} sl={sl.1} st={st} hm={hm} mb={mb} smi={smi} asmi={asmi} ms={ms} n={n} mk={mk} roots={roots}" ++
+    s!" ## hs={b01 (hasStarted s now)} he={b01 (hasEnded s now)} cfgx={cfgx} asx={as.2} slx={sl.2} sx={sx} smip={smip} smio={smio} asmip={asmip} lim={if lb then c.limit else 0} adm={renderNats s.admins}:{b01 s.mutable} ce={ce}")
+
+/-- a valid schedule of `n` stages in the future of `now` (used to ask "would this instantiate pass the NON-schedule checks?") -/
+def canonStages (now n : Nat) : List Stage :=
+  (List.range n).map fun k =>
+    { name := k, start := now + 10 + 20 * k, stop := now + 20 + 20 * k, denom := 0, price := 0, pal := 1, mcl := none }
+
+def isOk {α : Type} (r : Except Err α) : Bool := match r with | .ok _ => true | .error _ => false
+
+/-- the model's own opinion on the non-schedule checks of an `inst` line (`-` when the stage count itself is out of range) -/
+def envOpinion (v : Variant) (op : Op) : String :=
+  match op with
+  | .inst now sender funds limit whale admins mutable stages members roots uriBad =>
+    if stages.length == 0 || stages.length > 3 then "-"
+    else b01 (isOk (step v none (.inst now sender funds limit whale admins mutable (canonStages now stages.length) members roots uriBad)))
+  | _ => "-"
+
+def okLine (v : Variant) (s : State) (extra : String) : String :=
+  let (p, d) := summary v s
+  s!"ok {p} ## {d}{extra}"
 
 def c13Step (σ : Variant × World) (line : String) : (Variant × World) × String :=
   let ws := words line
@@ -174,14 +229,49 @@ def c13Step (σ : Variant × World) (line : String) : (Variant × World) × Stri
     match w with
     | none => (σ, "err")
     | some s => (σ, (query v s ws).getD "bad-op")
-  | _ =>
+  | some kind =>
     match parseOp v ws with
     | none => (σ, "bad-op")
-    | some none => (σ, "err")
+    | some none =>
+      -- a Merkle root that is not 16-byte hex: rejected before the model (a non-schedule reason)
+      let n := ((kv ws "stages").bind parseStages).map List.length |>.getD 0
+      (σ, if n == 0 || n > 3 then "err ## env=-" else "err ## env=0")
     | some (some op) =>
-      match step v w op with
-      | .ok (some s) => ((v, some s), summary v s)
-      | .ok none => (σ, "err")
-      | .error _ => (σ, "err")
+      let r := step v w op
+      if kind == "inst" then
+        if kv ws "envok" == some "0" then (σ, s!"err ## env={envOpinion v op}")
+        else match r with
+          | .ok (some s) => ((v, some s), okLine v s " env=1")
+          | _ => (σ, s!"err ## env={envOpinion v op}")
+      else if kind == "add_stage" then
+        let opinion : String := match r with
+          | .ok _ => "1"
+          | .error _ => match op with
+            | .addStage now sender st _ => if isOk (step v w (.addStage now sender st [])) then "0" else "-"
+            | _ => "-"
+        if kv ws "menv" == some "0" then (σ, s!"err ## menv={opinion}")
+        else match r with
+          | .ok (some s) => ((v, some s), okLine v s " menv=1")
+          | _ => (σ, s!"err ## menv={opinion}")
+      else if kind == "migrate" || kind == "unk" then
+        -- outside `ExecuteMsg` / no state change expected: the verdict is drift, the resulting state is primary
+        match w with
+        | none => (σ, "err")
+        | some s0 =>
+          let s := match r with | .ok (some s1) => s1 | _ => s0
+          let (p, d) := summary v s
+          ((v, some s), s!"fr {p} ## {d} res={b01 (isOk r)}")
+      else if kind == "remove_stage" || kind == "update_stage" then
+        match r with
+        | .ok (some s) => ((v, some s), okLine v s "")
+        | _ => (σ, "err")
+      else
+        -- member / limit / admin messages: the implementation's verdict is a witness (`res=`)
+        match kv ws "res" with
+        | some "0" => (σ, s!"err ## res={b01 (isOk r)}")
+        | _ => match r with
+          | .ok (some s) => ((v, some s), okLine v s " res=1")
+          | _ => (σ, "err ## res=0")
+  | none => (σ, "bad-op")
 
 def main : IO Unit := runDriverRaw ((Variant.plain, (none : World))) c13Step
